@@ -1,5 +1,8 @@
 //! C15: compare_recon_values / recon_hash agree with parsed equality (oracle inside the target).
 //! Input: two strings separated by the first 0xFF byte (never part of valid UTF-8).
+//! Exempt are exactly the two OPEN findings: a comparator false positive between values that differ only in
+//! record nesting (`cmp-false-positive:nesting-only`) and a hash difference that disappears when the item
+//! separating new lines of attribute bodies are written as commas (`hash-differs:newline-in-attr-body`).
 #![no_main]
 use libfuzzer_sys::fuzz_target;
 use std::collections::hash_map::DefaultHasher;
@@ -41,12 +44,17 @@ fn flat(v: &Value, out: &mut Vec<String>) {
     }
 }
 
-/// Known hash findings: string delimiters or new lines inside an attribute body, signed zero.
-fn known_hash_cell(t: &str) -> bool {
-    let mut in_str = false;
-    let mut esc = false;
-    let mut parens = 0usize;
-    for c in t.chars() {
+/// OPEN finding C15 `hash-differs:newline-in-attr-body`: `is_implicit_record` does not see a new line that
+/// separates two items directly inside an attribute body (`@a(0\ntrue)` vs `@a(0,true)`).
+/// Returns the text with every such new line (outside string literals, innermost bracket is `(`, an item on
+/// both sides, first one of a run of blanks) replaced by `,`; `None` when there is none.
+fn newline_separators_as_commas(t: &str) -> Option<String> {
+    let chars: Vec<char> = t.chars().collect();
+    let mut out = String::with_capacity(t.len());
+    let mut stack: Vec<char> = vec![];
+    let (mut in_str, mut esc, mut changed) = (false, false, false);
+    let mut prev_sig = '(';
+    for (i, &c) in chars.iter().enumerate() {
         if in_str {
             if esc {
                 esc = false;
@@ -54,34 +62,52 @@ fn known_hash_cell(t: &str) -> bool {
                 esc = true;
             } else if c == '"' {
                 in_str = false;
-            } else if parens > 0 && matches!(c, ',' | ';' | ':' | '{' | '}' | '(' | ')') {
-                return true;
             }
+            out.push(c);
             continue;
         }
+        let mut w = c;
         match c {
             '"' => in_str = true,
-            '(' => parens += 1,
-            ')' => parens = parens.saturating_sub(1),
-            '\n' | '\r' if parens > 0 => return true,
+            '(' | '{' => stack.push(c),
+            ')' | '}' => {
+                stack.pop();
+            }
+            '\n' | '\r' if stack.last() == Some(&'(') && !matches!(prev_sig, '(' | ',' | ';' | ':') => {
+                let next_sig = chars[i + 1..].iter().copied().find(|c| !c.is_whitespace());
+                if !matches!(next_sig, None | Some(')') | Some(',') | Some(';') | Some(':')) {
+                    w = ',';
+                    changed = true;
+                }
+            }
             _ => {}
         }
+        if !w.is_whitespace() {
+            prev_sig = w;
+        }
+        out.push(w);
     }
-    false
+    changed.then_some(out)
 }
 
-fn has_float_zero(v: &Value) -> bool {
-    match v {
-        Value::Float64Value(x) => *x == 0.0,
-        Value::Record(a, i) => {
-            a.iter().any(|a| has_float_zero(&a.value))
-                || i.iter().any(|i| match i {
-                    Item::ValueItem(v) => has_float_zero(v),
-                    Item::Slot(k, v) => has_float_zero(k) || has_float_zero(v),
-                })
-        }
-        _ => false,
+/// Is a hash difference between the compare-equal texts `a`, `b` explained by the open finding alone?
+/// Yes iff writing the item-separating new lines of attribute bodies as commas keeps both values, keeps the
+/// texts compare-equal and makes the hashes agree. Anything else is a new defect.
+fn explained_by_newline_in_attr_body(a: &str, b: &str, pa: &Option<Value>, pb: &Option<Value>) -> bool {
+    let (na, nb) = (newline_separators_as_commas(a), newline_separators_as_commas(b));
+    if na.is_none() && nb.is_none() {
+        return false;
     }
+    let (na, nb) = (na.unwrap_or_else(|| a.to_string()), nb.unwrap_or_else(|| b.to_string()));
+    let same = |orig: &Option<Value>, t: &str| match (orig, parse_recognize::<Value>(t, false).ok()) {
+        (Some(x), Some(y)) => structural_eq(x, &y),
+        _ => false,
+    };
+    if !same(pa, &na) || !same(pb, &nb) {
+        // the rewrite is not meaning preserving here (or a text is invalid): cannot tell, stay silent
+        return true;
+    }
+    compare_recon_values(&na, &nb) && hash(&na) == hash(&nb)
 }
 
 fuzz_target!(|data: &[u8]| {
@@ -90,9 +116,6 @@ fuzz_target!(|data: &[u8]| {
     }
     let Some(p) = data.iter().position(|b| *b == 0xff) else { return };
     let (Ok(a), Ok(b)) = (std::str::from_utf8(&data[..p]), std::str::from_utf8(&data[p + 1..])) else { return };
-    if has_surrogate_escape(a) || has_surrogate_escape(b) {
-        return;
-    }
     let pa = parse_recognize::<Value>(a, false).ok();
     let pb = parse_recognize::<Value>(b, false).ok();
     let cmp = compare_recon_values(a, b);
@@ -116,10 +139,11 @@ fuzz_target!(|data: &[u8]| {
         panic!("compare({:?}, {:?}) = {} but expected {} (parsed {:?} / {:?})", a, b, cmp, expected, pa, pb);
     }
     if cmp && hash(a) != hash(b) {
-        let known = known_hash_cell(a)
-            || known_hash_cell(b)
-            || pa.as_ref().map(has_float_zero).unwrap_or(false)
-            || pb.as_ref().map(has_float_zero).unwrap_or(false);
-        assert!(known, "compare({:?}, {:?}) = true but recon_hash differs", a, b);
+        assert!(
+            explained_by_newline_in_attr_body(a, b, &pa, &pb),
+            "compare({:?}, {:?}) = true but recon_hash differs",
+            a,
+            b
+        );
     }
 });
